@@ -19,7 +19,7 @@ func c15Call(f func()) (panicked bool) {
 }
 
 func H_C15_compose() {
-	g := vNewEmu()
+	g := vNewEmuOn(vChoice("store", 0, 1))
 	names := []string{"s0", "s1", "s2"}
 	contents := []string{"a", "bc", ""}
 	for i, n := range names {
@@ -133,7 +133,7 @@ func H_C15_compose() {
 }
 
 func H_C15_copy() {
-	g := vNewEmu()
+	g := vNewEmuOn(vChoice("store", 0, 1))
 	meta := vPut(g, "b", "src", []byte("payload"))
 	// user-settable metadata on the source
 	w0 := vNewRecorder()
@@ -194,7 +194,43 @@ func H_C15_copy() {
 	vReach("c15-copy-ok")
 }
 
+// H_C15_copy_race: a copy overlapping another request on its destination (a delete, or an upload
+// of different content), all interleavings: the copy of an existing source answers 200 and
+// describes the object it created, whatever the other request did before or afterwards.
+func H_C15_copy_race() {
+	g := vNewEmu()
+	src := vPut(g, "b", "src", []byte("payload"))
+	rival := vChoice("rival", 0, 1)
+	if vChoice("dst-exists", 0, 1) == 1 {
+		vPut(g, "b", "dst", []byte("old"))
+	}
+	w := vNewRecorder()
+	vGo(func() { g.handleGcsCopy(vCtx(), dontNeedUrls, w, "b", "src/rewriteTo/b/b/o/dst") })
+	vGo(func() {
+		if rival == 0 {
+			g.handleGcsDelete(vCtx(), vNewRecorder(), "b", "dst", emptyConds)
+		} else {
+			g.finishUpload(vCtx(), dontNeedUrls, &storage.Object{Bucket: "b", Name: "dst"}, []byte("rival-bytes"), "b", emptyConds)
+		}
+	})
+	vJoin()
+	vAssert(w.code == http.StatusOK, "copy-race:existing-source-gives-200")
+	var rr *storage.RewriteResponse
+	for _, b := range w.bodies {
+		if x, ok := b.(*storage.RewriteResponse); ok {
+			rr = x
+		}
+	}
+	vAssert(rr != nil && rr.Resource != nil, "copy-race:rewrite-response")
+	if rr != nil && rr.Resource != nil {
+		vAssert(rr.ObjectSize == 7 && rr.TotalBytesRewritten == 7 && rr.Resource.Size == 7 && rr.Resource.Md5Hash == src.Md5Hash,
+			"copy-race:reports-the-copied-object")
+	}
+	vReach("c15-copy-race")
+}
+
 func init() {
+	vHarnesses["H_C15_copy_race"] = H_C15_copy_race
 	vHarnesses["H_C15_compose"] = H_C15_compose
 	vHarnesses["H_C15_copy"] = H_C15_copy
 }
